@@ -17,7 +17,7 @@ from concurrent.futures import ThreadPoolExecutor
 from .assemble import assemble, ROOT, REPO
 from .rscan import ExtractError
 
-BUILD = os.path.join(ROOT, 'build')
+BUILD = os.environ.get('VERIF_BUILD', os.path.join(ROOT, 'build'))   # (VERIF_BUILD / VERIF_EVIDENCE_DIR / VERIF_REPO: development only)
 VERUS = shutil.which('verus') or 'verus'
 
 OBLIGATION_MSGS = (
@@ -537,8 +537,9 @@ def check_property(prop, tier, seed):
         assumptions=pc.get('assumptions', []),
         wall_s=round(wall, 2), violations=len(violations),
     )
-    os.makedirs(os.path.join(ROOT, 'evidence'), exist_ok=True)
-    with open(os.path.join(ROOT, 'evidence', prop + '.json'), 'w') as fh:
+    evdir = os.environ.get('VERIF_EVIDENCE_DIR', os.path.join(ROOT, 'evidence'))
+    os.makedirs(evdir, exist_ok=True)
+    with open(os.path.join(evdir, prop + '.json'), 'w') as fh:
         json.dump(ev, fh, indent=1)
     printed = set()
     for kf, fl in known_printed:
